@@ -185,6 +185,12 @@ def FatTree.downFor (f : FatTree) (t : FTables) (dst : FNode) : Nat → Nat → 
         else f.downFor t dst fuel cur (i + 1) acc
       else some (cur, acc)
 
+/-- bound on the number of iterations of one run of the inner `for`: `i` only grows and the loop stops as soon as
+`i >= currentNode->children.size()`, whatever node it is on by then; every `children.size()` is one of the terms -/
+def FatTree.sizeSum (f : FatTree) : Nat → Nat
+  | 0 => 0
+  | n + 1 => f.sizeSum n + f.down.getD n 0 * f.count.getD n 0
+
 /-- `while (currentNode != destination) { d = source->position % num_port_lower_level[level - 1]; for (i = d * num_children[level - 1]; ...) }` -/
 def FatTree.downLoop (f : FatTree) (t : FTables) (srcPos : Nat) (dst : FNode) (dstIdx : Nat) :
     Nat → Nat → List FTLink → Option (List FTLink)
@@ -199,7 +205,7 @@ def FatTree.downLoop (f : FatTree) (t : FTables) (srcPos : Nat) (dst : FNode) (d
           if cn.level = 0 then none   -- `level - 1` underflows: cannot happen below an ancestor of the destination
           else
             let d := srcPos % f.count.getD (cn.level - 1) 0
-            match f.downFor t dst (f.childrenSize cn + 2 + f.levels * 64) cur (d * f.down.getD (cn.level - 1) 0) acc with
+            match f.downFor t dst (f.sizeSum f.levels + 2) cur (d * f.down.getD (cn.level - 1) 0) acc with
             | none => none
             | some (cur', acc') => f.downLoop t srcPos dst dstIdx fuel cur' acc'
 
